@@ -567,3 +567,36 @@ def c10h(ctx):
     srs = keyword(mg[0], 'bbox_srs') if mg else None
     ok = srs is not None and unparse(srs) in ('params.srs', 'query.srs', 'query.srs.srs_code')
     ctx.check(ok, 'WMSServer.map:mask-srs', 'the mask SRS is the request/query SRS', fn)
+
+
+@rule('C10.i', floor=4)
+def c10i(ctx):
+    """a limited_to geometry is compared in its own SRS: whatever is tested against a coverage (bbox, point, geometry) is first
+    brought into the coverage SRS -- on every path through GeomCoverage._geom_in_coverage_srs with srs != self.srs a transform of
+    the geometry is executed; BBOXCoverage does the same for its bbox tests"""
+    from ..decide import table as _table
+    fn = ctx.fn('mapproxy/util/coverage.py:GeomCoverage._geom_in_coverage_srs')
+    gp = fn.params[1]
+
+    def ev(st):
+        if isinstance(st, (ast.Assign, ast.Return)) and contains(st, lambda x: is_call(x, 'transform_geometry', 'transform_to', 'transform_bbox_to') and
+                                                                 any(unparse(a) == gp for a in x.args)):
+            return 'transform'
+        return None
+    tab = ctx.rows(_table(fn.node.body, ret_kind, event_of=ev))
+    same = [a for a in tab.atoms if tab.atom_objs[a].op == '==' and {unparse(tab.atom_objs[a].left), unparse(tab.atom_objs[a].right)} == {'self.srs', fn.params[2]}]
+    bad = []
+    if len(same) == 1:
+        for asg, out, events in tab.assignments():
+            if not asg[same[0]] and 'transform' not in events and not out.startswith('raise'):
+                bad.append(asg)
+    ctx.check(len(same) == 1 and not bad, 'GeomCoverage._geom_in_coverage_srs:always-transformed',
+              'for srs != self.srs every kind of geometry (shapely geometry, point, bbox) is transformed into the coverage SRS (%d rows)' % len(tab.rows), fn,
+              fail='a geometry in another SRS is compared with the coverage without being transformed: %s' % (bad[:1],))
+    for m in ('intersects', 'contains', 'intersection'):
+        f = ctx.fn('mapproxy/util/coverage.py:GeomCoverage.' + m)
+        defs = Defs(f.node)
+        uses = [x for x in f.walk() if isinstance(x, ast.Call) and isinstance(x.func, ast.Attribute) and x.func.attr in ('intersects', 'contains', 'intersection')
+                and ('geom' in unparse(x.func.value))]
+        ok = bool(uses) and all(x.args and depends(x.args[0], lambda y: is_call(y, 'self._geom_in_coverage_srs'), defs) for x in uses)
+        ctx.check(ok, 'GeomCoverage.%s:argument-in-coverage-srs' % m, 'the geometry tested against the coverage went through _geom_in_coverage_srs', f)
